@@ -98,6 +98,7 @@ type Exec struct {
 	tagFacts    []*Term
 	sealedImpls map[string][]int
 	pureSeen  map[string]bool
+	nilable   map[*Term]string // sweep: terms that may be nil by local provenance (see nilcheck.go)
 	pureDepth int
 	pending   []pendingFact
 	specDepth int
